@@ -428,7 +428,7 @@ func parseBalance(out string) (rows []balRow, total *balRow, err error) {
 	}
 	sep := false
 	for ln, line := range strings.Split(strings.TrimSuffix(out, "\n"), "\n") {
-		if line == "-----------|" {
+		if strings.HasSuffix(line, "|") && strings.Trim(line, "-") == "|" && len(line) > 1 { // the separator above the grand total: dashes and a bar, whatever its width
 			sep = true
 			continue
 		}
